@@ -10,7 +10,7 @@ HEADER = "From Coq Require Import ZArith List.\nFrom TV Require Import Common.Ha
 CASE_T = "C12.Corr.case"
 PROPS = ["C12/Props.v"]
 CLAUSE = {1: "stale-read", 2: "getter-ran-twice", 3: "change-not-notified", 4: "event-announces-stale-value"}
-PNAMES = ["scalar", "child", "kids", "dict", "set", "nums", "nested", "kidchild", "multi", "chain"]
+PNAMES = ["scalar", "child", "kids", "dict", "set", "nums", "nested", "kidchild", "multi", "chain", "mitems", "sitems"]
 KEYS = ["ka", "kb", "kc"]
 
 
@@ -69,7 +69,7 @@ def nontrivial(case, obs):
 RELEVANT = {  # traits whose mutation matters for each property (steers the generator only)
     "scalar": ["value"], "child": ["child", "value"], "kids": ["kids", "value"], "dict": ["m", "value"],
     "set": ["s", "value"], "nums": ["nums"], "nested": ["child", "kids", "value"],
-    "kidchild": ["kids", "child", "value"], "multi": ["value", "child", "nums"], "chain": ["value"],
+    "kidchild": ["kids", "child", "value"], "multi": ["value", "child", "nums"], "chain": ["value"], "mitems": ["m"], "sitems": ["s"],
 }
 
 
@@ -206,7 +206,7 @@ def corpus():
 def run(ctx):
     ok, log = ctx.proofs(PROPS)
     ctx.cov["trusted_base"] += [
-        "tools/drivers/c12_driver.py (test classes with 10 dependency shapes x cached/uncached, the independent "
+        "tools/drivers/c12_driver.py (test classes with 12 dependency shapes x cached/uncached, the independent "
         "recomputation functions, the from-scratch walk giving the observed view and the touched flag, counters through "
         "an override of trait_property_changed) and tools/props/c12.py (generator, term writer)",
         "interface, not proved here: the observe machinery calls the property's handler exactly once for a change of a "
@@ -215,7 +215,7 @@ def run(ctx):
     ]
     ctx.cov["rule"] = ("random histories (reads, listener add/remove, copies by pickle 0-5 / deepcopy / clone_traits, "
                        "mutations of scalar, Instance, List, Dict, Set traits and their items anywhere in a DAG pool of 2-5 "
-                       "objects with shared and repeated items, relevant traits preferred) for 10 dependency shapes (incl. a property that observes another cached property) x cached / "
+                       "objects with shared and repeated items, relevant traits preferred) for 12 dependency shapes (incl. a property that observes another cached property and two that depend on which objects a dict / set holds) x cached / "
                        "not cached; a case is non-trivial if the property's handler fired at least once; distinct = distinct "
                        "(property, cached, pool, history)")
     rnd = random.Random(ctx.seed)
